@@ -7,8 +7,8 @@ package output
 // Their handlers are the subject of C06/C07.
 
 //@ func (*Registry).LoadOutputs(r, ctx, target, targetResult, progress) (err)
-//@   trusted
 //@   modifies target.OutputsLoaded, target.OutputHash, target.CacheTime
+//@   modifies heap("H$S$output.handlers.DockerRegistryOutputHandler$dockerClient"), heap("H$S$output.handlers.dockerLayerProgress$lastCurrent"), heap("H$S$proto.gen.Directory$Directories"), heap("H$S$proto.gen.Directory$Files"), heap("H$S$proto.gen.Directory$Symlinks"), heap("M$String$Int$has"), heap("M$String$Int$val"), heap("M$String$Int$len")
 //@   ensures [loaded_flag] err == nil ==> target.OutputsLoaded
 //@   ensures [output_hash_from_result] err == nil && !old(target.OutputsLoaded) ==> target.OutputHash == targetResult.OutputHash
 //@   ensures [already_loaded_untouched] old(target.OutputsLoaded) ==> target.OutputHash == old(target.OutputHash)
@@ -17,8 +17,7 @@ package output
 //@   ghostset target.restored := err == nil
 
 //@ func (*Registry).WriteOutputs(r, ctx, target, progress) (res, err)
-//@   trusted
-//@   pure
+//@   modifies heap("H$S$output.handlers.DockerRegistryOutputHandler$dockerClient"), heap("H$S$output.handlers.dockerLayerProgress$lastCurrent"), heap("H$S$proto.gen.Directory$Directories"), heap("H$S$proto.gen.Directory$Files"), heap("H$S$proto.gen.Directory$Symlinks"), heap("M$String$Int$has"), heap("M$String$Int$val"), heap("M$String$Int$len")
 //@   allocates res
 //@   ensures [result_shape] err == nil ==> res != nil && res.ChangeHash == target.ChangeHash
 //@   ensures [nil_on_error] err != nil ==> res == nil
@@ -26,8 +25,7 @@ package output
 //@   ghostset target.outputsStored := err == nil
 
 //@ func (*Registry).GetNoCacheOutputHash(r, ctx, target) (res, err)
-//@   trusted
-//@   pure
+//@   modifies heap("H$S$output.handlers.DockerRegistryOutputHandler$dockerClient"), heap("H$S$output.handlers.dockerLayerProgress$lastCurrent"), heap("H$S$proto.gen.Directory$Directories"), heap("H$S$proto.gen.Directory$Files"), heap("H$S$proto.gen.Directory$Symlinks"), heap("M$String$Int$has"), heap("M$String$Int$val"), heap("M$String$Int$len")
 //@   allocates res
 //@   ensures [result_shape] err == nil ==> res != nil && res.ChangeHash == target.ChangeHash && len(res.Outputs) == 0
 //@   ensures [nil_on_error] err != nil ==> res == nil
